@@ -109,7 +109,7 @@ fn s(x: &str) -> String {
 
 pub fn header_lists(request: bool, max: usize) -> Vec<Vec<(String, String)>> {
     let names: Vec<&str> = if request { vec!["Host", "host", "HOST", "User-Agent", "Accept", "Accept-Language", "Accept-Encoding", "Cookie", "Referer", "Cache-Control", "Connection", "X-A", "Via", "Keep-Alive"] } else { vec!["Server", "server", "Content-Type", "Date", "Set-Cookie", "Content-Length", "Connection", "X-A", "ETag", "Accept-Ranges", "Vary", "Keep-Alive"] };
-    let values = ["v", " v ", "a:b", "\u{fc}ber", "", "a, b;q=0.5", "x=1; y=2", "k=[v]", "en-US,en;q=0.9", "sid=YWJjZA==; prefs=lang=en; bare; =v; e="];
+    let values = ["v", " v ", "\tw\t", "a:b", "\u{fc}ber", "", "a, b;q=0.5", "x=1; y=2", "k=[v]", "en-US,en;q=0.9", "sid=YWJjZA==; prefs=lang=en; bare; =v; e="];
     let hdrs: Vec<(String, String)> = names.iter().flat_map(|n| values.iter().map(move |v| (s(n), s(v)))).collect();
     let mut out: Vec<Vec<(String, String)>> = vec![vec![]];
     let mut cur: Vec<Vec<(String, String)>> = vec![vec![]];
@@ -135,7 +135,7 @@ pub fn header_lists(request: bool, max: usize) -> Vec<Vec<(String, String)>> {
 }
 
 pub fn lang_values() -> Vec<String> {
-    let tags = ["en", "fr", "de", "es-MX"];
+    let tags = ["en", "fr", "de", "es-MX", "fil-PH", "en_US"];
     let qs = [None, Some("1"), Some("0.9"), Some("0.5"), Some("0.1")];
     let mut items: Vec<Vec<String>> = vec![];
     for t in tags {
@@ -254,15 +254,93 @@ pub fn run(thorough: bool) -> Outcome {
             }
         }
     }
+    total = total.merge(large_bodies());
     Outcome {
         report: total,
-        rule: "heads from the grammar: 16 methods x 4 targets x 2 versions; 5 status codes x 3 reasons x 2 versions; every header list of length <= 2 (3 thorough) over 14/12 names incl. case variants x 9 values (UTF-8, inner colon, brackets, empty, surrounding blanks); 98/99/100-header lists; Accept-Language lists of 1-3 tags with q-values and optional blanks; each followed by 11 bodies (binary, text with CRLF/LF blank lines, header-like); parser route and packet route; distinct = distinct reported observations".into(),
+        rule: "heads from the grammar: 16 methods x 4 targets x 2 versions; 5 status codes x 3 reasons x 2 versions; every header list of length <= 2 (3 thorough) over 14/12 names incl. case variants x 11 values (UTF-8, inner colon, brackets, empty, surrounding blanks and tabs); 98/99/100-header lists; Accept-Language lists of 1-3 tags with q-values and optional blanks; each followed by 11 bodies (binary, text with CRLF/LF blank lines, header-like); parser route and packet route; large bodies: one POST exchange with every pair of 11 request / 11 response body sizes from 0 to the largest IPv4 TCP payload x request in 1 / 2 / 2+1 segments x 3 fill bytes, reports equal to the body-less exchange; distinct = distinct reported observations".into(),
         exhaustive: true,
         bounds: json!({"messages": n, "bodies": bodies().len(), "max_header_list": max}),
     }
 }
 
+/// "Any body leaves the result unchanged" at the sizes where buffering limits live: one exchange (SYN, SYN+ACK, POST with
+/// a body of b1 bytes in one or two segments, response with a body of b2 bytes) for every pair of body sizes from 0 up to
+/// the largest TCP payload an IPv4 packet can carry; the request and the response report must equal those of the
+/// body-less exchange.
+fn large_bodies() -> Report {
+    let d = crate::drv::db();
+    let req_head = b"POST /upload HTTP/1.1\r\nHost: big.example\r\nUser-Agent: curl/7.68.0\r\nAccept: */*\r\nContent-Type: application/octet-stream\r\n\r\n".to_vec();
+    let resp_head = b"HTTP/1.1 200 OK\r\nServer: nginx/1.2.1\r\nContent-Type: text/html\r\nConnection: keep-alive\r\n\r\n".to_vec();
+    let max1 = 65535 - 40 - req_head.len();
+    let max2 = 65535 - 40 - resp_head.len();
+    let sizes = |max: usize| vec![0usize, 1, 1460, 16_384, 32_768, 65_536 / 2 + 1, 60_000, 64_000, 64_800, max - 1, max];
+    let run = |b1: usize, b2: usize, split: usize, fill: u8| {
+        let (c, sv) = ((1u8, 40000u16), (2u8, 80u16));
+        let mut frames = vec![
+            pkt::build(&Spec { src: c.0, sport: c.1, dst: sv.0, dport: sv.1, flags: SYN, seq: 999, ..Spec::default() }),
+            pkt::build(&Spec { src: sv.0, sport: sv.1, dst: c.0, dport: c.1, flags: SYN | ACK, seq: 4999, ack: 1000, ..Spec::default() }),
+        ];
+        let mut data = req_head.clone();
+        data.extend(std::iter::repeat(fill).take(b1));
+        let mut seq = 1000u32;
+        // split == 2: the request arrives in two segments, cut in the middle of the body; split == 3: the body is followed
+        // by a second body-sized segment (more request bytes than any limit per direction)
+        let cut = if split >= 2 && b1 > 1 { req_head.len() + b1 / 2 } else { data.len() };
+        for part in [&data[..cut], &data[cut..]] {
+            if !part.is_empty() {
+                frames.push(pkt::build(&Spec { src: c.0, sport: c.1, dst: sv.0, dport: sv.1, flags: ACK | PSH, seq, ack: 5000, payload: part.to_vec(), ..Spec::default() }));
+                seq = seq.wrapping_add(part.len() as u32);
+            }
+        }
+        if split == 3 && b1 > 0 {
+            frames.push(pkt::build(&Spec { src: c.0, sport: c.1, dst: sv.0, dport: sv.1, flags: ACK | PSH, seq, ack: 5000, payload: vec![fill; b1.min(65000)], ..Spec::default() }));
+        }
+        let mut rdata = resp_head.clone();
+        rdata.extend(std::iter::repeat(fill).take(b2));
+        frames.push(pkt::build(&Spec { src: sv.0, sport: sv.1, dst: c.0, dport: c.1, flags: ACK | PSH, seq: 5000, ack: seq, payload: rdata, ..Spec::default() }));
+        guarded(|| {
+            let mut a = HttpSeq::new(Some(d), 8);
+            let rs: Vec<_> = frames.iter().map(|f| a.feed(f)).collect();
+            (rs.iter().filter_map(|x| x.request.clone()).collect::<Vec<_>>(), rs.iter().filter_map(|x| x.response.clone()).collect::<Vec<_>>())
+        })
+    };
+    let mut r = Report::new();
+    let base = match run(0, 0, 1, b'x') {
+        Ok(b) if b.0.len() == 1 && b.1.len() == 1 => b,
+        other => {
+            r.machinery_error(format!("large-bodies: the body-less exchange is not reported once per direction: {other:?}"));
+            return r;
+        }
+    };
+    for &b1 in &sizes(max1) {
+        for &b2 in &sizes(max2) {
+            for split in [1usize, 2, 3] {
+                for fill in [b'x', 0u8, b'\n'] {
+                    r.exec(1);
+                    let ctx = || json!({"kind": "large-bodies", "request_body": b1, "response_body": b2, "request_segments": split, "fill": fill});
+                    match run(b1, b2, split, fill) {
+                        Err(p) => r.dev("C05/panic", "panic", || json!({"ctx": ctx(), "detail": p})),
+                        Ok(g) => {
+                            r.outcome(&("large", g.0.len(), g.1.len()));
+                            if g.0 != base.0 {
+                                r.dev("C05/large-body/request-report-changes", "body-changes-result", || json!({"ctx": ctx(), "reports": g.0.len()}));
+                            }
+                            if g.1 != base.1 {
+                                r.dev("C05/large-body/response-report-changes", "body-changes-result", || json!({"ctx": ctx(), "reports": g.1.len()}));
+                            }
+                        }
+                    }
+                }
+            }
+        }
+    }
+    r
+}
+
 pub fn replay(ex: &Value) -> Report {
+    if ex["ctx"]["kind"].as_str() == Some("large-bodies") {
+        return large_bodies();
+    }
     let mut r = Report::new();
     match serde_json::from_value::<Msg>(ex["ctx"]["msg"].clone()) {
         Ok(m) => check_msg(&mut r, &HttpProcessors::new(), &m, "replay"),
